@@ -279,6 +279,27 @@ def _diff_kind(exp, got):
     return "kind"
 
 
+class Frag(io.RawIOBase):
+    """An input stream that hands out at most k bytes per read call."""
+
+    def __init__(self, data, k):
+        self.data, self.k, self.pos = data, k, 0
+
+    def readable(self):
+        return True
+
+    def read(self, n=-1):
+        n = self.k if n is None or n < 0 else min(n, self.k)
+        out = self.data[self.pos:self.pos + n]
+        self.pos += len(out)
+        return out
+
+    def readinto(self, b):
+        d = self.read(len(b))
+        b[:len(d)] = d
+        return len(d)
+
+
 def check_urlencoded(W, rec, pairs):
     """pairs: list of (key, value) strings over all of Unicode."""
     M, FP, T, Request, DS = W
@@ -298,6 +319,17 @@ def check_urlencoded(W, rec, pairs):
         got = [[k, v] for k, v in form.items(multi=True)]
         if got != exp:
             rec.violation("C02/urlencoded:direct-differs", f"expected {exp!r} got {got!r} body {body!r}", case, monitor="roundtrip")
+    # the same body arriving in pieces (a slow client: every read returns at most k bytes), through a Request with the
+    # default limits
+    rec.case()
+    rec.observe("path:urlencoded_fragmented")
+    with rec.guard(case, "C02/urlencoded"):
+        k = (len(body) % 7) + 1
+        env = {"REQUEST_METHOD": "POST", "wsgi.input": Frag(body, k), "CONTENT_TYPE": "application/x-www-form-urlencoded", "CONTENT_LENGTH": str(len(body)),
+               "wsgi.url_scheme": "http", "SERVER_NAME": "h", "SERVER_PORT": "80", "PATH_INFO": "/", "SCRIPT_NAME": "", "QUERY_STRING": ""}
+        got = [[kk, v] for kk, v in Request(env).form.items(multi=True)]
+        if got != exp:
+            rec.violation("C02/urlencoded:fragmented-stream-differs", f"at most {k} bytes per read: expected {exp!r} got {got!r}", case, monitor="roundtrip")
     # builder: form + query string
     rec.case()
     rec.observe("path:args")
@@ -314,6 +346,80 @@ def check_urlencoded(W, rec, pairs):
                 rec.violation("C02/urlencoded:args-differ", f"expected {exp!r} got {ga!r} qs={r.query_string!r}", case, monitor="roundtrip")
         finally:
             b.close()
+
+
+def concurrent_shared_parser(W, rec, rng, rounds):
+    """Schedule: ONE FormDataParser / MultiPartParser object serving two requests at once (a parser kept on the
+    application).  The two input streams hand out a few bytes per read and rendezvous at every read, so the two
+    parses interleave piece by piece; each request must still get exactly its own fields and files."""
+    import threading
+
+    M, FP, T, Request, DS = W
+
+    class Lockstep(io.RawIOBase):
+        def __init__(self, data, k, barrier):
+            self.data, self.k, self.pos, self.barrier = data, k, 0, barrier
+
+        def readable(self):
+            return True
+
+        def read(self, n=-1):
+            try:
+                self.barrier.wait(timeout=5)
+            except threading.BrokenBarrierError:
+                pass  # the other body is finished
+            n = self.k if n is None or n < 0 else min(n, self.k)
+            out = self.data[self.pos:self.pos + n]
+            self.pos += len(out)
+            if not out:
+                self.barrier.abort()
+            return out
+
+    for rnd in range(rounds):
+        bodies, exps = [], []
+        for who in ("A", "B"):
+            md = DS.MultiDict()
+            fields = [(f"f{who}{i}", f"{who}-value-{i}-" + rand_value(rng)) for i in range(rng.randint(1, 3))]
+            blob = f"{who}-FILE-".encode() + rand_bytes(rng, b"SHAREDBOUND") * 3
+            if has_delimiter(blob, b"SHAREDBOUND"):
+                blob = f"{who}-FILE".encode()
+            for k_, v_ in fields:
+                if has_delimiter(v_.encode("utf-8"), b"SHAREDBOUND"):
+                    v_ = who
+                md.add(k_, v_)
+            md.add("up", DS.FileStorage(io.BytesIO(blob), filename=f"{who}.bin", name="up", content_type="application/octet-stream"))
+            _, data = T.encode_multipart(md, boundary="SHAREDBOUND")
+            bodies.append(data)
+            exps.append(([[k_, v_] for k_, v_ in md.items(multi=True) if isinstance(v_, str)], [["up", f"{who}.bin", blob]]))
+        for kind in ("FormDataParser", "MultiPartParser"):
+            rec.case()
+            rec.nontrivial(("shared-parser", kind, rnd, len(bodies[0]), len(bodies[1])))
+            rec.observe("shared_parser_runs")
+            case = {"path": "shared-parser", "parser": kind, "round": rnd}
+            shared = FP.FormDataParser() if kind == "FormDataParser" else FP.MultiPartParser(buffer_size=64)
+            barrier = threading.Barrier(2)
+            out = [None, None]
+
+            def work(i):
+                try:
+                    st = Lockstep(bodies[i], 23, barrier)
+                    if kind == "FormDataParser":
+                        _, form, files = shared.parse(st, "multipart/form-data", len(bodies[i]), {"boundary": "SHAREDBOUND"})
+                    else:
+                        form, files = shared.parse(st, b"SHAREDBOUND", len(bodies[i]))
+                    out[i] = ([[k_, v_] for k_, v_ in form.items(multi=True)], [[k_, f.filename, f.read()] for k_, f in files.items(multi=True)])
+                except Exception as e:  # noqa: BLE001
+                    out[i] = ("EXC", type(e).__name__, str(e)[:100])
+
+            ths = [threading.Thread(target=work, args=(i,)) for i in (0, 1)]
+            for t_ in ths:
+                t_.start()
+            for t_ in ths:
+                t_.join(30)
+            for i in (0, 1):
+                if out[i] != exps[i]:
+                    rec.violation("C02/shared-parser:concurrent-requests-mixed-up", f"{kind}: request {'AB'[i]} got {str(out[i])[:300]!r}, expected {str(exps[i])[:300]!r}", case, monitor="roundtrip")
+                    return
 
 
 def _world():
@@ -421,6 +527,7 @@ def run(shard, rec, rng):
             if pad > 0:
                 rec.observe("header_straddles_64k_cases")
                 check_parts(W, rec, plist(pad), boundary, paths=("encode_multipart",))
+    concurrent_shared_parser(W, rec, rng, 3)
     # ---- random part lists
     for i in range(cfg["random_lists"]):
         boundary = rand_boundary(rng)
